@@ -6,6 +6,7 @@
 #include <stdlib.h>
 #include <string.h>
 #include <stdint.h>
+#include <math.h>
 #include "cbor.h"
 
 struct rng { uint64_t s; };
@@ -20,10 +21,44 @@ static cbor_item_t* gen(struct rng* r, int depth) {
     case 0: return cbor_build_uint8((uint8_t)v);
     case 1: return cbor_build_uint64(v);
     case 2: return cbor_build_negint32((uint32_t)v);
-    case 3: { char buf[40]; size_t n = below(r, 30); for (size_t i = 0; i < n; i++) buf[i] = (char)('a' + below(r, 26)); return cbor_build_stringn(buf, n); }
+    case 3: {   /* text: ASCII, valid multi-byte sequences, and - one time in four - bytes that are not valid UTF-8 at a random offset */
+      unsigned char buf[64]; size_t n = 0, want = below(r, 30);
+      static const unsigned char mb[4][4] = {{0xc3, 0xa9, 0, 0}, {0xe2, 0x82, 0xac, 0}, {0xf0, 0x9f, 0x98, 0x80}, {0xf4, 0x8f, 0xbf, 0xbf}};
+      while (n < want) {
+        uint64_t c = below(r, 8);
+        if (c < 5) buf[n++] = (unsigned char)('a' + below(r, 26));
+        else { const unsigned char* q = mb[below(r, 4)]; for (int i = 0; i < 4 && q[i]; i++) buf[n++] = q[i]; }
+      }
+      if (n && below(r, 4) == 0) { static const unsigned char bad[6] = {0x80, 0xc3, 0xff, 0xed, 0xe2, 0xf0}; buf[below(r, n)] = bad[below(r, 6)]; }
+      return cbor_build_stringn((const char*)buf, n);
+    }
     case 4: { unsigned char buf[40]; size_t n = below(r, 30); for (size_t i = 0; i < n; i++) buf[i] = (unsigned char)nxt(r); return cbor_build_bytestring(buf, n); }
-    case 5: return below(r, 2) ? cbor_build_float8((double)v * 0.5) : cbor_build_float4(1.5f);
-    case 6: return below(r, 2) ? cbor_build_bool(below(r, 2)) : cbor_build_float2(2.0f);
+    case 5: {   /* doubles and singles of every class: zero, subnormal, normal, infinite, NaN */
+      uint64_t cls = below(r, 6);
+      if (below(r, 2)) {
+        uint64_t bits = cls == 0 ? 0 : cls == 1 ? (nxt(r) & 0xfffffffffffffULL) | 1 : cls == 2 ? 0x7ff0000000000000ULL : cls == 3 ? 0x7ff8000000000001ULL : (nxt(r) & 0x7fefffffffffffffULL) | 0x0010000000000000ULL;
+        if (below(r, 2)) bits |= 1ULL << 63;
+        double d; memcpy(&d, &bits, 8); return cbor_build_float8(d);
+      } else {
+        uint32_t bits = cls == 0 ? 0 : cls == 1 ? ((uint32_t)nxt(r) & 0x7fffffu) | 1 : cls == 2 ? 0x7f800000u : cls == 3 ? 0x7fc00001u : ((uint32_t)nxt(r) & 0x7f7fffffu) | 0x00800000u;
+        if (below(r, 2)) bits |= 1u << 31;
+        float f; memcpy(&f, &bits, 4); return cbor_build_float4(f);
+      }
+    }
+    case 6: {   /* booleans / null / undef / simple values, and half-width floats incl. values the half encoder has to round, flush or treat as subnormal */
+      uint64_t c = below(r, 8);
+      if (c == 0) return cbor_build_bool(below(r, 2));
+      if (c == 1) return below(r, 2) ? cbor_new_null() : cbor_new_undef();
+      if (c == 2) return cbor_build_ctrl((uint8_t)(32 + below(r, 200)));
+      float f;
+      if (c == 3) f = ldexpf((float)(1 + below(r, 1023)), -24);                         /* subnormal halves */
+      else if (c == 4) f = ldexpf(1.0f + (float)below(r, 1 << 20) / (float)(1 << 20), -25 - (int)below(r, 3));   /* just below the smallest subnormal half */
+      else if (c == 5) f = ldexpf(1.0f + (float)below(r, 1024) / 1024.0f, (int)below(r, 30) - 14);              /* normal halves */
+      else if (c == 6) { uint32_t b = below(r, 2) ? 0x7f800000u : 0x7fc00000u; if (below(r, 2)) b |= 1u << 31; memcpy(&f, &b, 4); }
+      else f = ldexpf(1.0f + (float)below(r, 1 << 23) / (float)(1 << 23), (int)below(r, 40) - 20);             /* not half-representable: rounded */
+      if (below(r, 2)) f = -f;
+      return cbor_build_float2(f);
+    }
     case 7: case 8: {
       size_t n = below(r, 5); cbor_item_t* a = k == 7 ? cbor_new_definite_array(n) : cbor_new_indefinite_array();
       for (size_t i = 0; i < n; i++) { cbor_item_t* x = gen(r, depth - 1); (void)cbor_array_push(a, x); cbor_decref(&x); }
